@@ -135,7 +135,14 @@ fn fnorm(a: &[f64]) -> f64 {
 fn fpair(d: &mut Draw, n: usize) -> (Vec<f64>, Vec<f64>, &'static str) {
     let u = fvec(d, n);
     let k = d.f64_log(1e-2, 1e2);
-    match d.int(0, 7) {
+    match d.int(0, 8) {
+        8 => {
+            // v = u + a relatively tiny difference: distance must not be computed through cancelling squares
+            let eps = d.f64_log(1e-13, 1e-4);
+            let w = fvec(d, n);
+            let v: Vec<f64> = (0..n).map(|i| u[i] + eps * w[i] * fnorm(&u) / fnorm(&w)).collect();
+            (u, v, "nearby")
+        }
         0..=3 => (u, fvec(d, n), "generic"),
         4 => {
             let eps = d.f64_log(1e-12, 1e-2);
@@ -232,7 +239,7 @@ pub fn property() -> Property {
         };
     }
     const RG: &str = "no zero component, u.v != 0 (neither parallel by construction nor perpendicular)";
-    const PAIRS: &[(&str, u32)] = &[("generic", 200), ("near-parallel", 50), ("near-antiparallel", 50), ("parallel", 50), ("antiparallel", 50)];
+    const PAIRS: &[(&str, u32)] = &[("generic", 200), ("near-parallel", 50), ("near-antiparallel", 50), ("parallel", 50), ("antiparallel", 50), ("nearby", 50)];
     macro_rules! inner {
         ($T:ident, $tag:expr) => {
             add!(concat!("inner-", $tag, "-Q"), "Q", inner_field::<Q, $T<Q>>, 2000, 150_000, 32, &[("generic", 100)], RG);
